@@ -110,7 +110,7 @@ var containerTags = []string{"textarea", "title", "pre", "option", "td", "li", "
 // element, no attribute) and the canary are asserted for them.
 var rawTextTags = map[string]bool{"xmp": true, "iframe": true, "noembed": true, "noframes": true}
 
-var sinks = []string{"in:textarea", "in:title", "in:pre", "in:option", "in:td", "in:li", "in:button", "in:h1", "in:a", "in:label", "in:code", "in:summary", "in:noscript", "in:xmp", "in:iframe", "in:noembed", "in:noframes", "nsattr", "pretext", "prevtext", "preattr", "prebound", "text", "vtext", "attr", "bound", "vbind", "class", "style", "loop", "loopattr", "loopchild", "incstatic", "incbound", "incattr", "inctplroot", "inctplrootattr", "slotinc", "slotincplain", "slotprop", "layout", "layoutattr", "ifself", "elseself"}
+var sinks = []string{"in:textarea", "in:title", "in:pre", "in:option", "in:td", "in:li", "in:button", "in:h1", "in:a", "in:label", "in:code", "in:summary", "in:noscript", "in:xmp", "in:iframe", "in:noembed", "in:noframes", "nsattr", "pretext", "prevtext", "preattr", "prebound", "boundmustache", "boundmustacheclass", "text", "vtext", "attr", "bound", "vbind", "class", "style", "loop", "loopattr", "loopchild", "incstatic", "incbound", "incattr", "inctplroot", "inctplrootattr", "slotinc", "slotincplain", "slotprop", "layout", "layoutattr", "ifself", "elseself"}
 var encs = []string{"bare", "if", "else", "tplif", "nested", "loopchild", "elseif"}
 
 // tokens: the hostile alphabet. The first coreN are enumerated exhaustively.
@@ -120,6 +120,7 @@ var tokens = []string{
 	` :x="secret"`, ` v-html="secret"`, "x", "/", "\\", "\n", "&gt;", "&apos;", "<img src=x onerror=a>", "{{ secret + 1 }}", "]]>", "<![CDATA[",
 	"</textarea>", "</title>", "</pre>", "</option>", "</select>", "</td>", "</table>", "</li>", "</button>", "</h1>", "</a>", "</div>", "</style>", "</template>", "<p>", "<a href=x>", "<td>", "<plaintext>",
 	"{}", "[]", `{"a":1}`, `[1,"<b>"]`, "{", "[", "null", "true", "0",
+	"{k: secret}", "{secret: yes}", "{ 'a b': secret }", "{{ secret }", "secret", "secret | upper", "yes ? secret : 1",
 }
 
 const coreN = 14
@@ -195,6 +196,12 @@ func buildSink(c Case, n nb) program {
 		return program{tpl: wrap(c.Enc, `<pre><span data-m="s" title="`+n.LS+`{{ v }}`+n.RS+`">x</span> <b>{{ v }}</b></pre>`), attr: "title", useNb: true}
 	case "prebound":
 		return program{tpl: wrap(c.Enc, `<pre>x <span><em data-m="s" :title="v">y</em></span> z</pre>`), attr: "title"}
+	case "boundmustache":
+		// a bound attribute whose expression is written with a mustache: the value arrives by
+		// interpolation and must not be looked at again as an expression / object literal
+		return program{tpl: wrap(c.Enc, `<p data-m="s" :title="{{ v }}" v-bind:lang="x{{ v }}">x</p>`), attr: "title"}
+	case "boundmustacheclass":
+		return program{tpl: wrap(c.Enc, `<p data-m="s" class="st" :class="{{ v }}">x</p>`), attr: "class"}
 	case "nsattr":
 		// fallback markup inside <noscript>: an attribute of an element there
 		return program{tpl: wrap(c.Enc, `<noscript><img data-m="s" src="`+n.LS+`{{ v }}`+n.RS+`" alt="x"><p>{{ v }}</p></noscript>`), attr: "src", useNb: true}
